@@ -237,6 +237,46 @@ Proof.
   destruct (chk (perm_for kind u) t); [|discriminate]. rewrite (IH H). reflexivity.
 Qed.
 
+(* ---------------------------------------------------------------- upserts *)
+Lemma ask_all_snd chk ps t : snd (ask_all chk ps t) = forallb (fun p => chk p t) ps.
+Proof.
+  induction ps as [|p r IH]; cbn [ask_all forallb]; [reflexivity|].
+  destruct (chk p t); [|reflexivity]. destruct (ask_all chk r t) as [l b]. cbn [snd] in *. cbn. assumption.
+Qed.
+
+Lemma authorize_x_iff chk kind ex us : authorize_x chk kind ex us = true <->
+  forall u t, In (u, t) us -> forall p, In p (perms_of kind ex u) -> chk p t = true.
+Proof.
+  induction us as [|[u0 t0] r IH]; cbn [authorize_x].
+  - split; [intros _ u t []|reflexivity].
+  - rewrite ask_all_snd. destruct (forallb (fun p => chk p t0) (perms_of kind ex u0)) eqn:E.
+    + rewrite IH. rewrite forallb_forall in E. split.
+      * intros H u t [Heq|Hin] p Hp; [inversion Heq; subst; apply E; assumption|eapply H; eauto].
+      * intros H u t Hin. apply H. right. assumption.
+    + split; [discriminate|]. intros H. exfalso.
+      assert (forallb (fun p => chk p t0) (perms_of kind ex u0) = true).
+      { apply forallb_forall. intros p Hp. apply (H u0 t0 (or_introl eq_refl) p Hp). }
+      congruence.
+Qed.
+
+(* with no extra permissions it is the loop modelled before *)
+Lemma authorize_x_nil chk kind us : authorize_x chk kind [] us = authorize chk kind us.
+Proof.
+  induction us as [|[u t] r IH]; cbn [authorize_x authorize]; [reflexivity|].
+  assert (E : perms_of kind [] u = [perm_for kind u]) by (destruct u; reflexivity).
+  rewrite E. cbn [ask_all]. destruct (chk (perm_for kind u) t); cbn [snd]; [apply IH|reflexivity].
+Qed.
+
+(* the tree before the repair: INSERT INTO t ... ON CONFLICT DO UPDATE reports [t write]; a caller holding only the
+   insert permission on t (tag 1) is let through although the statement rewrites existing rows *)
+Definition only_insert_t (p : perm) (t : N) : bool := match p with PInsert => t =? 1 | _ => false end.
+Lemma old_refuted_upsert :
+  authorize only_insert_t K_insert [(UWrite, 1)] = true /\ only_insert_t PUpdate 1 = false /\
+  authorize_x only_insert_t K_insert (extra_write_perms true false) [(UWrite, 1)] = false /\
+  authorize_x only_insert_t K_insert (extra_write_perms false true) [(UWrite, 1)] = false /\
+  authorize_x only_insert_t K_insert (extra_write_perms false false) [(UWrite, 1)] = true.
+Proof. vm_compute. auto. Qed.
+
 (* ---------------------------------------------------------------- composition *)
 Definition every_table_checked_stmt (S : schema) : Prop :=
   forall chk n ti, conforms S n = true -> find_ty S (n_ty n) = Some ti -> t_stmt ti = true ->
